@@ -136,6 +136,7 @@ func c13Stack(r *eng.Run) {
 		ww.SetExtensions(exts...)
 		r.Probe("writer_reset_after_abandoned_fragmented_message")
 	}
+	closeStyle := r.T.Chance(sim.LHist, 1, 3) // compressed messages are ended with Close, as the package's example server does
 	resetOp := r.T.Chance(sim.LHist, 1, 3) // the application announces every message with ResetOp (keeps extensions, as documented)
 	fw := wsflate.NewWriter(nil, flateCtor(level))
 	type ctrlAt struct {
@@ -205,7 +206,14 @@ func c13Stack(r *eng.Run) {
 				}
 			}
 		}
-		if m.compressed {
+		if m.compressed && closeStyle {
+			// (Close instead of Flush: the compressor ends its stream; the
+			// writer is re-armed by the next Reset.)
+			if err := fw.Close(); err != nil {
+				r.Failf("unexpected_error", "wsflate.Writer.Close: %v", err)
+			}
+			r.Probe("compressed_message_ended_with_close")
+		} else if m.compressed {
 			if err := fw.Flush(); err != nil {
 				r.Failf("unexpected_error", "wsflate.Writer.Flush: %v", err)
 			}
